@@ -1,5 +1,5 @@
 (** Property C07 — staged application is order-independent. *)
-From Tx3 Require Import Base Tir Reduce Reduce_proofs.
+From Tx3 Require Import Base Tir Reduce Reduce_proofs Reduce_values.
 
 Theorem C07_args_fees_commute : forall a f e, apply_args a (apply_fees f e) = apply_fees f (apply_args a e).
 Proof. exact args_fees_commute. Qed.
@@ -13,6 +13,13 @@ Theorem C07_tx_stages_commute : forall a i f t,
   tx_apply_fees f (tx_apply_inputs i t) = tx_apply_inputs i (tx_apply_fees f t).
 Proof. exact tx_stages_commute. Qed.
 
+(** reducing an already reduced template changes nothing: plain data (what a fully applied and
+    reduced template consists of) is a fixed point of reduce at every sufficient fuel *)
+Theorem C07_values_are_fixed_points : forall e, is_value e = true ->
+  exists f0, forall f, (f0 <= f)%nat -> forall pick, reduce pick f e = Ok e.
+Proof. exact reduce_value_fixed. Qed.
+
+Print Assumptions C07_values_are_fixed_points.
 Print Assumptions C07_args_fees_commute.
 Print Assumptions C07_args_inputs_commute.
 Print Assumptions C07_fees_inputs_commute.
